@@ -315,7 +315,7 @@ func biasedAst(rng *rand.Rand, cfg gen.Config) *gen.Node {
 		}
 		return q
 	}
-	words := []string{"ab", "abc", "bca", "xy", "a1", "Ab", "éa", "ba", "aab", "-a", "bc", "abcd", "xbcy", "ca", "bcab", "éb", "αa", "\U0001F601a"}
+	words := []string{"ab", "abc", "bca", "xy", "a1", "Ab", "éa", "ba", "aab", "-a", "bc", "abcd", "xbcy", "ca", "bcab", "éb", "αa", "\U0001F601a", "aa", "aba", "abab"}
 	w := func() string { return words[rng.Intn(len(words))] }
 	cfg.MaxDepth = 1 + rng.Intn(2)
 	tail := gen.Random(rng, cfg)
